@@ -54,8 +54,9 @@ pub fn run(path: &str, seed: u64) -> (u64, u64) {
                     let h = p.slice();
                     let want = if op == Op::Count || res < 0 { res } else { off as i64 + res * s as i64 };
                     for sr in all_searchers(&needles, false) {
-                        for (entry, got) in real_calls(&*sr, op, h) {
+                        for (entry, got, fixed) in real_calls(&*sr, op, h) {
                             execs += 1;
+                            let want = fixed.unwrap_or(want);
                             match got {
                                 Err(m) => report("panic", format!("{}::{entry} panicked: {m}", sr.backend()), line),
                                 Ok(r) if r != want => report("result", format!("{}::{entry} returned {r}, oracle {want} (len {nlen}, stretch {off}/{s})", sr.backend()), line),
